@@ -97,6 +97,57 @@ pub fn run(tier: Tier) -> i32 {
     run.add("pinned_vectors_reference_agrees", ok);
     let leaves = all_leaves();
     let st = run_units(&run, &leaves, true, true, |b, loc: &mut Local| text_check(b, loc));
+    // joint velocity lattice: the speed / heading lines round derived values (floor, ceil): every boundary row and
+    // column of (v_ew, v_ns) complete (quick), all 2^22 combinations for both ground-speed subtypes (thorough)
+    {
+        use rayon::prelude::*;
+        let edge: Vec<u64> = vec![0, 1, 2, 3, 4, 5, 8, 17, 18, 511, 512, 1021, 1022, 1023];
+        let jobs: Vec<(u64, u64)> = [1u64, 2].into_iter().flat_map(|stv| (0u64..4).map(move |sg| (stv, sg))).collect();
+        let locs: Vec<Local> = jobs
+            .par_iter()
+            .map(|(stv, signs)| {
+                let mut loc = Local::default();
+                let mut b = vec![0u8; 14];
+                crate::bits::set_bits(&mut b, 1, 5, 17);
+                crate::bits::set_bits(&mut b, 6, 3, 5);
+                crate::bits::set_bits(&mut b, 9, 24, 0x4840d6);
+                crate::bits::set_bits(&mut b, 33, 5, 19);
+                crate::bits::set_bits(&mut b, 38, 3, *stv);
+                crate::bits::set_bits(&mut b, 32 + 14, 1, signs >> 1);
+                crate::bits::set_bits(&mut b, 32 + 25, 1, signs & 1);
+                crate::bits::set_bits(&mut b, 32 + 38, 9, 11);
+                let mut one = |ev: u64, nv: u64, loc: &mut Local| {
+                    crate::bits::set_bits(&mut b, 32 + 15, 10, ev);
+                    crate::bits::set_bits(&mut b, 32 + 26, 10, nv);
+                    text_check(&b, loc);
+                };
+                if tier.thorough() {
+                    for ev in 0..1024 {
+                        for nv in 0..1024 {
+                            one(ev, nv, &mut loc);
+                        }
+                    }
+                } else {
+                    for e in &edge {
+                        for x in 0..1024 {
+                            one(*e, x, &mut loc);
+                            one(x, *e, &mut loc);
+                        }
+                    }
+                }
+                loc
+            })
+            .collect();
+        for loc in locs {
+            run.add("extra_cases", loc.counts.get("decodes").copied().unwrap_or(0));
+            run.add("nontrivial_extra", loc.counts.get("accepted").copied().unwrap_or(0));
+            run.add("velocity_lattice_renderings", loc.counts.get("accepted").copied().unwrap_or(0));
+            run.merge_outcomes(&loc.outcomes);
+            for v in loc.viols {
+                run.violation(v);
+            }
+        }
+    }
     run.sample(json!({"input": "8d40621d58c382d690c8ac2863a7", "expected_first_line": " Extended Squitter Airborne position (barometric altitude)"}));
     let cov = e1_coverage(
         &run,
